@@ -12,6 +12,7 @@ import AdaptixModel.Retort.CacheSites
 import AdaptixModel.Retort.CacheWitness
 import AdaptixModel.Generated.C11Sites
 import AdaptixProofs.Lemmas.CacheFacade
+import AdaptixProofs.Lemmas.CacheRecipe
 
 namespace Adaptix.Cache.C11
 open Adaptix.Cache Adaptix.Generated.C11Sites
@@ -155,6 +156,117 @@ theorem clone_calls_do_not_leak (P : Params) (hM : P.mode = Mode.fixed) (U : Uni
     observe P U (runHist P U (.replace 0 strict :: hist) { retorts := [Retort.fresh cfg], norm := N }) 0 f =
       some (observeFresh P U cfg f) :=
   history_independent_initial P hM U [cfg] N _ 0 (by simp) f
+
+/-! ### Recipe entries guarded by several predicates (`bound_by_any`, `P[a, b]`)
+
+The providers of a recipe are objects shared by a retort and all its `replace()` / `extend()` clones.  In the model an
+entry is data (`RecipeEntry`): its predicates are a list that is consulted afresh, as a whole, for every request - so
+`history_independent` and `clone_calls_do_not_leak` (quantified over every configuration) cover recipes whose entries
+carry any number of predicates.  The theorems below say what such an entry does, independently of the search. -/
+
+/-- **bound_by_any / P[a, b]**: an entry without predicates is unguarded; otherwise it accepts exactly the requests
+    whose norm equals the norm of one of its predicates -/
+theorem preds_accept_spec (M : Mode) (U : Univ) (ts : List Hint) (n : Hint) :
+    predsAccept M U ts n = true ↔ ts = [] ∨ ∃ t ∈ ts, t.canon M U = n :=
+  predsAccept_iff M U ts n
+
+/-- only the *set* of predicates matters: neither their order nor repetitions (so it can not matter which of them
+    was consulted by earlier requests) -/
+theorem preds_accept_set (M : Mode) (U : Univ) (ts ts' : List Hint) (h : ∀ t, t ∈ ts ↔ t ∈ ts') (n : Hint) :
+    predsAccept M U ts n = predsAccept M U ts' n := by
+  rw [Bool.eq_iff_iff, predsAccept_iff, predsAccept_iff]
+  have hnil : ts = [] ↔ ts' = [] := by
+    simp only [List.eq_nil_iff_forall_not_mem]
+    exact ⟨fun a t ht => a t ((h t).mpr ht), fun a t ht => a t ((h t).mp ht)⟩
+  constructor
+  · rintro (a | ⟨t, ht, e⟩)
+    · exact Or.inl (hnil.mp a)
+    · exact Or.inr ⟨t, (h t).mp ht, e⟩
+  · rintro (a | ⟨t, ht, e⟩)
+    · exact Or.inl (hnil.mpr a)
+    · exact Or.inr ⟨t, (h t).mpr ht, e⟩
+
+/-- **which provider serves a request**: the first entry, in recipe order, whose predicates accept the norm of the
+    requested type and whose provider serves such a request (its own request checker: direction for `loader` /
+    `dumper`, `AnyEnumLSC` for the enum providers) - a function of the recipe and the request alone -/
+theorem recipe_match_first (M : Mode) (U : Univ) (cfg : Cfg) (dir : Dir) (src : Hint) (sv : Served) :
+    userMatch M U cfg dir src = some sv ↔
+      ∃ (k : Nat) (e : RecipeEntry), cfg.recipe[k]? = some e ∧
+        predsAccept M U e.targets (src.canon M U) = true ∧ serve U e k dir (src.canon M U) = some sv ∧
+        ∀ (j : Nat) (e' : RecipeEntry), j < k → cfg.recipe[j]? = some e' →
+          takes M U dir (src.canon M U) e' j = false := by
+  have := matchFrom_some M U dir (src.canon M U) sv cfg.recipe 0
+  simpa [userMatch] using this
+
+/-- `==`-equal requested hints are served by the same entry -/
+theorem recipe_match_respects_eq (U : Univ) (cfg : Cfg) (dir : Dir) (a b : Hint) (h : Hint.pyEq a b = true) :
+    userMatch Mode.fixed U cfg dir a = userMatch Mode.fixed U cfg dir b :=
+  userMatch_congr U cfg dir a b ((Hint.pyEq_iff a b).mp h)
+
+/-- **a multi-predicate `enum_by_name` keeps serving by name**: in a process with any number of retorts, let retort
+    `i` be built from a recipe that starts with `enum_by_name(t₁, …, tₙ)` where some `tₖ` is the Enum class `u`.  After
+    *any* history - requests for types none of the predicates accepts, requests accepted by a later predicate, failed
+    requests, clones and requests on the clones - loading and dumping `u` on retort `i` run the by-name closures. -/
+theorem multi_pred_enum_by_name_after_any_history (P : Params) (hM : P.mode = Mode.fixed) (f : Nat)
+    (hf : P.fuel = f + 1) (U : Univ) (cfgs : List Cfg) (i : Nat) (hi : i < cfgs.length) (strict : Bool)
+    (ts : List Hint) (rest : List RecipeEntry) (hcfg : cfgs[i] = ⟨strict, ⟨.enumByName, ts⟩ :: rest⟩)
+    (u : Nat) (ms : List (String × LitVal)) (hk : U.kind u = .enum ms) (hu : Hint.cls u ∈ ts)
+    (N : List Hint) (hist : List Op) (v : Val) :
+    observe P U (runHist P U hist { retorts := cfgs.map Retort.fresh, norm := N }) i (.load (.cls u) v) =
+        some (run U P.fuel [] (.enumNameL u) v) ∧
+    observe P U (runHist P U hist { retorts := cfgs.map Retort.fresh, norm := N }) i (.dump (.cls u) v) =
+        some (run U P.fuel [] (.enumNameD u) v) := by
+  rw [history_independent_initial P hM U cfgs N hist i hi, history_independent_initial P hM U cfgs N hist i hi, hcfg,
+    fresh_load_enum_by_name P U f hf strict ts rest u ms hk hu, fresh_dump_enum_by_name P U f hf strict ts rest u ms hk hu]
+  exact ⟨rfl, rfl⟩
+
+/-- ... in particular the name of a member loads to that member, whatever happened before -/
+theorem multi_pred_enum_member_by_name (P : Params) (hM : P.mode = Mode.fixed) (f : Nat)
+    (hf : P.fuel = f + 1) (U : Univ) (strict : Bool) (ts : List Hint) (rest : List RecipeEntry)
+    (u : Nat) (ms : List (String × LitVal)) (hk : U.kind u = .enum ms) (hu : Hint.cls u ∈ ts)
+    (name : String) (val : LitVal) (hm : (name, val) ∈ ms) (N : List Hint) (hist : List Op) :
+    observe P U (runHist P U hist { retorts := [Retort.fresh ⟨strict, ⟨.enumByName, ts⟩ :: rest⟩], norm := N }) 0
+      (.load (.cls u) (.str name)) = some (.ok (.enum u name)) := by
+  have h := (multi_pred_enum_by_name_after_any_history P hM f hf U [⟨strict, ⟨.enumByName, ts⟩ :: rest⟩] 0 (by simp)
+    strict ts rest rfl u ms hk hu N hist (.str name)).1
+  simp only [List.map_cons, List.map_nil] at h
+  rw [h, hf]
+  simp only [run, enumMembers, hk]
+  cases hfind : ms.find? (fun m => m.1 == name) with
+  | none =>
+    have := List.find?_eq_none.mp hfind (name, val) hm
+    simp at this
+  | some m =>
+    have := List.find?_some hfind
+    simp at this
+    simp [this]
+
+/-- the scenario on a concrete universe (`Retort(recipe=[enum_by_name(Color, Size)])`; non-vacuity): a request none of
+    the predicates accepts, a failed request, a request for the *second* predicate's class, a `replace()` clone and a
+    request on it come first; then both classes are still loaded by name on the original and on the clone, while a
+    recipe-less retort loads by value -/
+example :
+    let P : Params := { mode := Mode.fixed, cap := 128, fuel := 12 }
+    let w := runHist P exU
+      [.call 0 (.load (.cls 0) (.int 10)), .call 0 (.getLoader (.cls 9)), .call 0 (.load (.cls 11) (.str "BIG")),
+       .replace 0 (some false), .call 1 (.dump (.cls 0) (.int 10))]
+      { retorts := [Retort.fresh exEnumCfg], norm := [] }
+    (observe P exU w 0 (.load (.cls 10) (.str "RED"))).bind Outcome.member = some (10, "RED") ∧
+    (observe P exU w 0 (.load (.cls 11) (.str "SMALL"))).bind Outcome.member = some (11, "SMALL") ∧
+    (observe P exU w 1 (.load (.cls 10) (.str "GREEN"))).bind Outcome.member = some (10, "GREEN") ∧
+    (observe P exU w 0 (.load (.cls 10) (.int 1))).map Outcome.isOk = some false ∧
+    (observeFresh P exU exCfg (.load (.cls 10) (.int 1))).member = some (10, "RED") ∧
+    (observeFresh P exU exCfg (.load (.cls 10) (.str "RED"))).isOk = false := by
+  decide +kernel
+
+/-- `recipe_match_first` is not vacuous: the second entry serves `Size` because the first one, although its predicates
+    accept `Size`, is a `loader` asked for a dumper -/
+example :
+    userMatch Mode.fixed exU { strict := true, recipe := [⟨.user .load 1, [.cls 0, .cls 11]⟩, ⟨.enumByName, [.cls 10, .cls 11]⟩] }
+      .dump (.cls 11) = some (.enumName 1 11) ∧
+    takes Mode.fixed exU .dump (.cls 11) ⟨.user .load 1, [.cls 0, .cls 11]⟩ 0 = false ∧
+    predsAccept Mode.fixed exU [.cls 0, .cls 11] (.cls 11) = true := by
+  decide +kernel
 
 /-! ### The unrepaired code violates the property (witnesses) and non-vacuity -/
 
